@@ -35,6 +35,9 @@ def cases(tier, rng):
                 "n_histories": 2 if tier == "quick" else 4,
                 "dispersive": bool((i // 3 + i) % 3 == 1),
                 "mclass": i,
+                # a third of the scenes run under a gradient configuration (reversible: the container then owns a
+                # boundary-recording state, and run_fdtd resets through another path)
+                "gradient": [None, "reversible", None, "checkpointed", "reversible", None][i % 6],
             }
         )
     return out
@@ -117,6 +120,14 @@ def _one(sc, r):
             {"lo": [max(l, h - 3) for l, h in zip(ilo, ihi)], "hi": list(ihi), "mat": {"eps": 2.0, "dispersion": {"poles": poles[: int(rng.integers(1, 3))]}}, "order": 5}
         )
     r.branch("dispersive_scene" if meta["dispersive"] else "non_dispersive_scene")
+    grad = sc.get("gradient")
+    if grad == "reversible" and meta["dispersive"]:
+        grad = "checkpointed"  # the library refuses reversible runs of dispersive scenes
+    if grad == "reversible":
+        scene["gradient"] = {"method": "reversible"}
+    elif grad == "checkpointed":
+        scene["gradient"] = {"method": "checkpointed", "num_checkpoints": int(rng.integers(1, 4))}
+    r.branch("gradient_config:" + str(grad))
     built = scenes.build(scene)
     objects, config, arrays0 = built["objects"], built["config"], built["arrays"]
     key = jax.random.PRNGKey(11)
@@ -228,7 +239,14 @@ def _one(sc, r):
                 a = poison(a)
                 poisoned = True
             elif op == "reset":
-                a = a.reset()
+                if a.recording_state is not None and rng.random() < 0.5:
+                    a = a.reset(reset_recording_state=True)
+                    r.branch("reset_with_recording_state")
+                    leftover = [float(jnp.max(jnp.abs(x))) for x in jax.tree.leaves(a.recording_state) if isinstance(x, jax.Array) and x.size]
+                    if any(v != 0.0 for v in leftover):
+                        r.violate("after reset(reset_recording_state=True) the recording state is not zero", {**wit, "max_abs": max(leftover)}, sig=sig)
+                else:
+                    a = a.reset()
                 r.count("resets_checked")
                 z = _tree_np(a)
                 for k, v in z.items():
